@@ -22,10 +22,10 @@ Definition s_madd (self_ : (matrix A)) (plus_ : (matrix A)) : res (matrix A) :=
   else (if (negb ((cols self_) =? (cols plus_))%nat)
        then (Panic Guard)
        else (let result_ := (mat_new (rows self_) (cols self_) (@zero A)) in
-            for_ 0 (cols result_) (fun j_ (result_ : (matrix A)) =>
-                for_ 0 (rows result_) (fun i_ (result_ : (matrix A)) =>
-                    let* x1 := mget plus_ i_ j_ in
-                    let* x2 := mget self_ i_ j_ in
+            for_ 0 (rows result_) (fun i_ (result_ : (matrix A)) =>
+                for_ 0 (cols result_) (fun j_ (result_ : (matrix A)) =>
+                    let* x1 := mget self_ i_ j_ in
+                    let* x2 := mget plus_ i_ j_ in
                     mset result_ i_ j_ (add x1 x2)) result_) result_)).
 
 (* src/matrix/arithmetic.rs : impl < T : Copy + Number > Sub < & Matrix < T > > for & Matrix < T > :: fn sub *)
